@@ -458,6 +458,20 @@ class Check:
         self.notes: list[str] = []
         self._replay_n = 0
         REPLAYS.mkdir(exist_ok=True)
+        # Replays of the registered run (default seed, /repo) are named <id>_<tier>_<n>.json
+        # and the ones of an earlier such run are removed first, so a file that is there
+        # after a run was written by it.  Runs with another seed or tree carry the process
+        # id, so that concurrent runs do not overwrite each other's replays.
+        default_run = "VERIF_SEED" not in os.environ and os.environ.get("LIQUID2_REPO", "/repo") == "/repo"
+        self._replay_prefix = f"{prop}_{tier}_" if default_run else f"{prop}_{tier}_p{os.getpid()}_"
+        now = time.time()
+        for f in REPLAYS.glob(f"{prop}_{tier}_*.json"):
+            try:
+                own = default_run and re.fullmatch(rf"{prop}_{tier}_\d+\.json", f.name)
+                if own or now - f.stat().st_mtime > 86400:
+                    f.unlink()
+            except OSError:
+                pass
         EVIDENCE.mkdir(exist_ok=True)
 
     # -- reporting
@@ -474,7 +488,7 @@ class Check:
             self.violations.append("")
             return
         self._replay_n += 1
-        path = REPLAYS / f"{self.prop}_{self.tier}_{self._replay_n}.json"
+        path = REPLAYS / f"{self._replay_prefix}{self._replay_n}.json"
         replay = dict(replay)
         replay.update({"property": self.prop, "signature": signature, "what": what,
                        "seed": seed(), "tier": self.tier})
